@@ -318,6 +318,8 @@ struct Chk<'a> {
     page_size: usize,
     visited: BTreeSet<u64>,
     leaves: Vec<u64>,
+    /// pages of every level in key order (level 0 = root)
+    levels: Vec<Vec<u64>>,
     depth: Option<usize>,
 }
 
@@ -331,6 +333,10 @@ impl<'a> Chk<'a> {
             return Err("cycle");
         }
         let p = *self.pages.get(&id).ok_or("page")?;
+        while self.levels.len() <= depth {
+            self.levels.push(Vec::new());
+        }
+        self.levels[depth].push(id);
         let mut prev: Option<u64> = None;
         let mut keys = Vec::with_capacity(p.cells.len());
         for c in &p.cells {
@@ -380,7 +386,7 @@ impl<'a> Chk<'a> {
     }
 }
 
-/// `ok` or the first rule broken: page | cycle | key | order | bound | depth | child0 | chain | links
+/// `ok` or the first rule broken: page | cycle | key | order | bound | depth | child0 | chain | links | emptyleaf | ilinks
 fn rust_check(d: &FileDump, root: u64, kt: Kt) -> &'static str {
     let mut pages = BTreeMap::new();
     for p in &d.pages {
@@ -390,7 +396,7 @@ fn rust_check(d: &FileDump, root: u64, kt: Kt) -> &'static str {
             }
         }
     }
-    let mut c = Chk { pages, kt, page_size: d.page_size, visited: BTreeSet::new(), leaves: Vec::new(), depth: None };
+    let mut c = Chk { pages, kt, page_size: d.page_size, visited: BTreeSet::new(), leaves: Vec::new(), levels: Vec::new(), depth: None };
     if let Err(e) = c.walk(root, None, None, 0) {
         return e;
     }
@@ -406,6 +412,21 @@ fn rust_check(d: &FileDump, root: u64, kt: Kt) -> &'static str {
         let want_next = if i + 1 == c.leaves.len() { 0 } else { c.leaves[i + 1] };
         if id0(p.prev) != want_prev || id0(p.next) != want_next {
             return "links";
+        }
+    }
+    // a leaf without cells, other than an empty root: `get_right_most` and the backward iterator compute `num_slots - 1`
+    if c.pages[&root].right_child.is_some() && c.leaves.iter().any(|id| c.pages[id].cells.is_empty()) {
+        return "emptyleaf";
+    }
+    // interior levels: the code keeps prev/next there too and uses them to find the frontier of a redistribution
+    for level in &c.levels {
+        for (i, id) in level.iter().enumerate() {
+            let p = c.pages[id];
+            let want_prev = if i == 0 { 0 } else { level[i - 1] };
+            let want_next = if i + 1 == level.len() { 0 } else { level[i + 1] };
+            if id0(p.prev) != want_prev || id0(p.next) != want_next {
+                return "ilinks";
+            }
         }
     }
     "ok"
